@@ -100,6 +100,10 @@ type Case struct {
 	Comps   map[string]Comp   `json:"comps"`
 	Data    map[string]vals.V `json:"data"`
 	Compact bool              `json:"compact,omitempty"` // no whitespace between tags in the files
+	// Short: include tags are written as registered component shorthand tags (<k-one> for
+	// components/KOne.vuego, docs/components.md "Component Shorthands") and the engine is created
+	// with vuego.WithComponents(). All component files must then live in components/.
+	Short bool `json:"short,omitempty"`
 }
 
 // ---------------------------------------------------------------------------------------------
@@ -115,7 +119,11 @@ func render(c Case) (string, error) {
 	for k, v := range c.Data {
 		data[k] = v.Go()
 	}
-	tpl := vuego.NewFS(m)
+	var opts []vuego.LoadOption
+	if c.Short {
+		opts = append(opts, vuego.WithComponents())
+	}
+	tpl := vuego.NewFS(m, opts...)
 	var buf bytes.Buffer
 	err := tpl.Load("page.vuego").Fill(data).Render(context.Background(), &buf)
 	return buf.String(), err
@@ -230,6 +238,7 @@ func TestProp(t *testing.T) {
 		destructure: known.Open("C06-destructured-slot-props-empty"),
 		frozen:      known.Open("C06-include-in-slot-content-frozen"),
 		tmplRoot:    known.Open("C06-template-root-evaluated-twice"),
+		shortNested: known.Open("C06-shorthand-tag-in-slot-content-not-resolved"),
 		layoutLeak:  known.Open("C06-layout-leaks-instance-slot-content"),
 	}
 
